@@ -277,7 +277,7 @@ fn two_spawners_gap(e: &'static Engine, extra_before: usize) {
             DONE[0].store(true, Ordering::SeqCst);
             100u32
         });
-        *s2.lock().unwrap() = Some(h);
+        *s2.lock().unwrap_or_else(|e| e.into_inner()) = Some(h);
     });
     e.wait_hit(bp);
     let hb = go!(|| {
@@ -290,7 +290,7 @@ fn two_spawners_gap(e: &'static Engine, extra_before: usize) {
     e.quiesce();
     e.release(bp);
     e.join(p1);
-    let ha = slot.lock().unwrap().take().unwrap();
+    let ha = slot.lock().unwrap_or_else(|e| e.into_inner()).take().unwrap();
     for (i, h) in [ha, hb].into_iter().enumerate() {
         match h.join() {
             Ok(v) if v == 100 + i as u32 && DONE[i].load(Ordering::SeqCst) => {}
